@@ -592,6 +592,9 @@ class PDFStandardSecurityHandlerV5(PDFStandardSecurityHandlerV4):
         self.u_hash = self.u[:32]
         self.u_validation_salt = self.u[32:40]
         self.u_key_salt = self.u[40:]
+        if len(self.oe) != 32 or len(self.ue) != 32:
+            error_msg = "Invalid /OE or /UE: param=%r" % self.param
+            raise PDFEncryptionError(error_msg)
 
     def get_cfm(self, name: str) -> Optional[Callable[[int, int, bytes], bytes]]:
         if name == "AESV3":
